@@ -28,6 +28,14 @@ var K0 = Kind{Name: "struct{}", Records: []string{""}, Schema: ref.Record("R0")}
 var K1 = Kind{Name: "struct{S string}", Records: []string{"", strings.Repeat("k", 9), strings.Repeat("B", 40)},
 	Schema: ref.Record("R1", ref.F("S", ref.Prim("string")))}
 
+// K1big: block lengths that need two- and three-byte varints (8192..16383 and beyond)
+var K1big = Kind{Name: "struct{S string} (large records)", Records: []string{strings.Repeat("s", 100), strings.Repeat("m", 9000), strings.Repeat("L", 20000)},
+	Schema: ref.Record("R1", ref.F("S", ref.Prim("string")))}
+
+// K1huge: a record above 1 MiB (buffer-retention logic, if any, kicks in) next to small ones
+var K1huge = Kind{Name: "struct{S string} (huge record)", Records: []string{strings.Repeat("a", 10), strings.Repeat("b", 2000), strings.Repeat("H", 1300000)},
+	Schema: ref.Record("R1", ref.F("S", ref.Prim("string")))}
+
 func (k Kind) NumOps() int { return len(k.Records) + 1 }
 func (k Kind) IsFlush(op int) bool { return op == len(k.Records) }
 func (k Kind) OpName(op int) string {
